@@ -120,6 +120,15 @@ pub mod mio {
         pub fn is_readable(&self) -> (r: bool) ensures r == self.r { self.r }
         pub fn is_writable(&self) -> (r: bool) ensures r == self.w { self.w }
     }
+    impl core::ops::BitOr for Ready {
+        type Output = Ready;
+        fn bitor(self, o: Ready) -> (r: Ready) { Ready { r: self.r || o.r, w: self.w || o.w } }
+    }
+    impl vstd::std_specs::ops::BitOrSpecImpl<Ready> for Ready {
+        open spec fn obeys_bitor_spec() -> bool { true }
+        open spec fn bitor_req(self, o: Ready) -> bool { true }
+        open spec fn bitor_spec(self, o: Ready) -> Ready { Ready { r: self.r || o.r, w: self.w || o.w } }
+    }
     #[derive(Clone, Copy)]
     pub struct PollOpt { pub e: bool }
     impl PollOpt { pub fn edge() -> PollOpt { PollOpt { e: true } } }
@@ -129,10 +138,30 @@ pub mod mio {
         pub fn token(&self) -> (r: Token) ensures r == self.tok { self.tok }
         pub fn readiness(&self) -> (r: Ready) ensures r == self.ready { self.ready }
     }
+    /// a batch of readiness events
+    #[verifier::external_body]
+    pub struct Events { _p: u8 }
+    #[verifier::external_body]
+    pub struct EventsIter<'a> { _p: core::marker::PhantomData<&'a Events> }
+    impl Events {
+        #[verifier::external_body]
+        pub fn with_capacity(n: usize) -> (r: Events) { unimplemented!() }
+        #[verifier::external_body]
+        pub fn is_empty(&self) -> (r: bool) { unimplemented!() }
+        #[verifier::external_body]
+        pub fn iter(&self) -> (r: EventsIter<'_>) { unimplemented!() }
+    }
+    impl<'a> EventsIter<'a> {
+        /// every event carries a token some source was registered with (R7 iterator mirror)
+        #[verifier::external_body]
+        pub fn next(&mut self) -> (r: Option<Event>) { unimplemented!() }
+    }
     /// kernel poll state is opaque: registration calls may fail, nothing else is known
     #[verifier::external_body]
     pub struct Poll { _p: u8 }
     impl Poll {
+        #[verifier::external_body]
+        pub fn poll(&self, events: &mut Events, timeout: Option<super::Duration>) -> (r: io::Result<usize>) { unimplemented!() }
         #[verifier::external_body]
         pub fn register<E>(&self, handle: &E, token: Token, interest: Ready, opts: PollOpt) -> (r: io::Result<()>) { unimplemented!() }
         #[verifier::external_body]
